@@ -16,6 +16,7 @@ package validate
 
 import (
 	"context"
+	"encoding/json"
 	"fmt"
 	"math"
 	"reflect"
@@ -53,25 +54,12 @@ func EnumCase(path, in string, data interface{}, enum interface{}, caseSensitive
 	for i := 0; i < val.Len(); i++ {
 		ele := val.Index(i)
 		enumValue := ele.Interface()
-		if reflect.DeepEqual(data, enumValue) {
-			return nil // also when both are nil
+		if valuesEqual(data, enumValue) {
+			return nil
 		}
-		if data != nil {
-			enumString := convertEnumCaseStringKind(enumValue, caseSensitive)
-			if dataString != nil && enumString != nil && strings.EqualFold(*dataString, *enumString) {
-				return nil
-			}
-			actualType := reflect.TypeOf(enumValue)
-			if actualType == nil { // Safeguard. Frankly, I don't know how we may get a nil
-				continue
-			}
-			expectedValue := reflect.ValueOf(data)
-			if expectedValue.IsValid() && expectedValue.Type().ConvertibleTo(actualType) {
-				// Attempt comparison after type conversion
-				if reflect.DeepEqual(expectedValue.Convert(actualType).Interface(), enumValue) {
-					return nil
-				}
-			}
+		enumString := convertEnumCaseStringKind(enumValue, caseSensitive)
+		if dataString != nil && enumString != nil && equalFold(*dataString, *enumString) {
+			return nil
 		}
 		values = append(values, enumValue)
 	}
@@ -91,6 +79,145 @@ func convertEnumCaseStringKind(value interface{}, caseSensitive bool) *string {
 
 	str := val.String() // the content of the string, not what a String() method prints
 	return &str
+}
+
+// equalFold is strings.EqualFold, except that a byte which is not valid UTF-8 only matches itself
+// (strings.EqualFold decodes every one of them as U+FFFD, so that "\xff" would match "\xfe").
+func equalFold(s, t string) bool {
+	for s != "" && t != "" {
+		sr, ssize := utf8.DecodeRuneInString(s)
+		tr, tsize := utf8.DecodeRuneInString(t)
+		if (sr == utf8.RuneError && ssize == 1) || (tr == utf8.RuneError && tsize == 1) {
+			if s[:ssize] != t[:tsize] {
+				return false
+			}
+		} else if !strings.EqualFold(s[:ssize], t[:tsize]) {
+			return false
+		}
+		s, t = s[ssize:], t[tsize:]
+	}
+
+	return s == t
+}
+
+// valuesEqual reports whether two values are deeply equal, numbers being compared by their numerical
+// value whatever the Go types that carry them (json.Number included), and strings of named string types
+// by their content.
+//
+// No conversion takes place: a number is never equal to a string, a slice never to an array.
+func valuesEqual(a, b interface{}) bool {
+	if reflect.DeepEqual(a, b) {
+		return true
+	}
+
+	av, bv := reflect.ValueOf(numberOf(a)), reflect.ValueOf(numberOf(b))
+	if !av.IsValid() || !bv.IsValid() {
+		return false
+	}
+
+	ak, bk := av.Kind(), bv.Kind()
+	switch {
+	case isNumberKind(ak) && isNumberKind(bk):
+		return numbersEqual(av, bv)
+	case ak == reflect.String && bk == reflect.String:
+		return av.String() == bv.String()
+	case ak == reflect.Slice && bk == reflect.Slice:
+		if av.IsNil() != bv.IsNil() || av.Len() != bv.Len() {
+			return false
+		}
+		for i := 0; i < av.Len(); i++ {
+			if !valuesEqual(av.Index(i).Interface(), bv.Index(i).Interface()) {
+				return false
+			}
+		}
+
+		return true
+	case ak == reflect.Map && bk == reflect.Map:
+		if av.Type().Key() != bv.Type().Key() || av.IsNil() != bv.IsNil() || av.Len() != bv.Len() {
+			return false
+		}
+		for _, key := range av.MapKeys() {
+			other := bv.MapIndex(key)
+			if !other.IsValid() || !valuesEqual(av.MapIndex(key).Interface(), other.Interface()) {
+				return false
+			}
+		}
+
+		return true
+	}
+
+	return false
+}
+
+// numberOf replaces a json.Number by the number it spells: an int64 when it is one, a float64 otherwise.
+func numberOf(v interface{}) interface{} {
+	n, ok := v.(json.Number)
+	if !ok {
+		return v
+	}
+	if i, err := n.Int64(); err == nil {
+		return i
+	}
+	if f, err := n.Float64(); err == nil {
+		return f
+	}
+
+	return v
+}
+
+func isIntKind(k reflect.Kind) bool {
+	return k >= reflect.Int && k <= reflect.Int64
+}
+
+func isUintKind(k reflect.Kind) bool {
+	return k >= reflect.Uint && k <= reflect.Uintptr
+}
+
+func isFloatKind(k reflect.Kind) bool {
+	return k == reflect.Float32 || k == reflect.Float64
+}
+
+func isNumberKind(k reflect.Kind) bool {
+	return isIntKind(k) || isUintKind(k) || isFloatKind(k)
+}
+
+// numbersEqual compares two values of numeric kinds exactly: no rounding, no wrap around.
+func numbersEqual(a, b reflect.Value) bool {
+	ak, bk := a.Kind(), b.Kind()
+	switch {
+	case isFloatKind(ak) && isFloatKind(bk):
+		return a.Float() == b.Float()
+	case isIntKind(ak) && isIntKind(bk):
+		return a.Int() == b.Int()
+	case isUintKind(ak) && isUintKind(bk):
+		return a.Uint() == b.Uint()
+	case isIntKind(ak) && isUintKind(bk):
+		return intEqualsUint(a.Int(), b.Uint())
+	case isUintKind(ak) && isIntKind(bk):
+		return intEqualsUint(b.Int(), a.Uint())
+	case isIntKind(ak) && isFloatKind(bk):
+		return intEqualsFloat(a.Int(), b.Float())
+	case isFloatKind(ak) && isIntKind(bk):
+		return intEqualsFloat(b.Int(), a.Float())
+	case isUintKind(ak) && isFloatKind(bk):
+		return uintEqualsFloat(a.Uint(), b.Float())
+	case isFloatKind(ak) && isUintKind(bk):
+		return uintEqualsFloat(b.Uint(), a.Float())
+	}
+
+	return false
+}
+
+func intEqualsUint(i int64, u uint64) bool {
+	return i >= 0 && uint64(i) == u
+}
+
+func intEqualsFloat(i int64, f float64) bool {
+	return isExactInt64(f) && int64(f) == i
+}
+
+func uintEqualsFloat(u uint64, f float64) bool {
+	return isExactUint64(f) && uint64(f) == u
 }
 
 // MinItems validates that there are at least n items in a slice
@@ -119,7 +246,7 @@ func UniqueItems(path, in string, data interface{}) *errors.Validation {
 	for i := 0; i < val.Len(); i++ {
 		v := val.Index(i).Interface()
 		for _, u := range unique {
-			if reflect.DeepEqual(v, u) {
+			if valuesEqual(v, u) {
 				return errors.DuplicateItems(path, in)
 			}
 		}
